@@ -12,6 +12,7 @@ package main
 //        unlockx S K                Unlock(K, id_S) with S a caller of another key (foreign but genuine id)
 //        expire S                   let S's TTL watchdog (short TTL, stopped at the hook) call remove
 //        gwttl T… | gwcancel        gateway Lock/Unlock handlers (TTL floor and clamp, WithoutCancel)
+//        gwrace                      the cancel-vs-grant race through the Lock RPC (its caller gives up while it is being granted)
 //        lock K zero|neg|min         a TTL ≤ 0: the watchdog fires at once (treated like `short`)
 // reply: <event> q=[S…] g=[S…] h=[S…]   queue, callers whose ready channel is closed, callers that
 //                                   acquired and are still queued (all as caller numbers, from the
@@ -530,7 +531,7 @@ func genC14(rng *rand.Rand, tier string, w *bufio.Writer) {
 		fmt.Fprintf(w, "case %d\nlock a long\nlock a long hold\nlock a long\ncancel 2\nunlock 1\ngo 2\nunlock 2\nunlock 3\n", 2+i)
 	}
 	fmt.Fprintln(w, "case 6\nlock a long\nlock a long hold\nlock a long\ncancel 2\ngo 2\nunlock 1\nlock b long hold\ncancel 4\nlock b long\ngo 4")
-	fmt.Fprintln(w, "case 7\ngwttl -3 -9223372036854775808 1000 2000 9223372036854 9223372036855 9300000000000 9223372036854775807\ngwcancel")
+	fmt.Fprintln(w, "case 7\ngwttl -3 -9223372036854775808 1000 2000 9223372036854 9223372036855 9300000000000 9223372036854775807\ngwcancel\ngwrace\ngwrace\ngwrace\ngwrace")
 	// ids issued on one key used on another: holder and waiter of b must be untouched by a's ids
 	// pre-cancelled contexts on a FREE key (granted head + ctx.Done both ready: either branch must
 	// leave a consistent queue), repeated on the same key; zero / negative / MinInt64 TTLs
@@ -802,7 +803,7 @@ func runC14(in *bufio.Scanner, out *bufio.Writer) {
 				w.release(w.ttlWait, s.qid)
 			}
 			fmt.Fprintf(out, "expire %d %s %s\n", s.n, res, w.state(s.key))
-		case "gwttl", "gwcancel":
+		case "gwttl", "gwcancel", "gwrace":
 			fmt.Fprintln(out, c14Gateway(f, install))
 			install(c14NewWorld(lock.New()))
 		default:
@@ -891,6 +892,64 @@ func c14Gateway(f []string, install func(*c14World)) string {
 			out += " " + o.txt + ":" + o.res
 		}
 		return out
+	case "gwrace":
+		// the cancel-vs-grant race through the real RPC: a second Lock RPC is stopped right before its select, its
+		// caller gives up, then the holder unlocks (the waiter is granted) — both select branches are ready when it
+		// is released.  Reply: the branch the runtime took, what the RPC returned, and who is left on the key.
+		key := fmt.Sprintf("gwrace-%d", time.Now().UnixNano())
+		first, err := gw.Lock(context.Background(), &hydrapb.LockRequest{Key: key, TTL: 60000})
+		if err != nil {
+			return "gwrace lock-err"
+		}
+		w.waitForRaw("lock.acq", first.LockID)
+		ctx, cancel := context.WithCancel(context.Background())
+		defer cancel()
+		type res struct {
+			id  string
+			err error
+		}
+		done := make(chan res, 1)
+		w.mu.Lock()
+		w.holdNext = true
+		w.mu.Unlock()
+		go func() {
+			r, err := gw.Lock(ctx, &hydrapb.LockRequest{Key: key, TTL: 60000})
+			id := ""
+			if r != nil {
+				id = r.LockID
+			}
+			done <- res{id, err}
+		}()
+		enq, ok := w.wait(func(e c14Event) bool { return e.name == "lock.enq" && e.raw != first.LockID })
+		if !ok {
+			return "gwrace timeout no-enq"
+		}
+		if _, ok := w.waitFor("lock.select", enq.id); !ok {
+			return "gwrace timeout no-select"
+		}
+		cancel()
+		_, _ = gw.Unlock(context.Background(), &hydrapb.UnlockRequest{Key: key, LockID: first.LockID})
+		if _, ok := w.waitForRaw("lock.rm", first.LockID); !ok {
+			return "gwrace timeout no-rm"
+		}
+		w.release(w.holds, enq.id)
+		ev, ok := w.wait(func(e c14Event) bool { return e.id == enq.id && (e.name == "lock.acq" || e.name == "lock.cancel") })
+		if !ok {
+			return "gwrace timeout no-branch"
+		}
+		branch := strings.TrimPrefix(ev.name, "lock.")
+		out := "timeout"
+		select {
+		case r := <-done:
+			out = "err"
+			if r.err == nil && r.id != "" {
+				out = "ok"
+				_, _ = gw.Unlock(context.Background(), &hydrapb.UnlockRequest{Key: key, LockID: r.id})
+			}
+		case <-time.After(HxScale(3 * time.Second)):
+		}
+		ids, _, _ := lock.VerifSnapshot(w.lk, key)
+		return fmt.Sprintf("gwrace %s %s left=%d", branch, out, len(ids))
 	case "gwcancel":
 		key := fmt.Sprintf("gwcancel-%d", time.Now().UnixNano())
 		first, err := gw.Lock(context.Background(), &hydrapb.LockRequest{Key: key, TTL: 60000})
